@@ -63,6 +63,18 @@ theorem objective_assembly (terms : List α) (B kl N β : α) (lps losses : List
   field_simp
   ring
 
+/-- **uncombined_terms** (`combine_terms=False`): each separately returned term is the corresponding term of the
+definition — in particular the returned KL term carries `β/N` (the translator checks that the returned tuple consists
+of exactly these variables). -/
+theorem uncombined_terms (t B kl N β lp l : α) (hB : B ≠ 0) (hN : N ≠ 0) (hβ : β ≠ 0) :
+    Gen.ElboScaling.logLikelihood t B kl N β = (1 / B) * t
+      ∧ Gen.ElboScaling.klTerm t B kl N β = (β / N) * kl
+      ∧ Gen.ElboScaling.logPriorItem lp t B kl N β = (1 / N) * lp
+      ∧ Gen.ElboScaling.addedLossItem l t B kl N β = l := by
+  refine ⟨?_, ?_, ?_, rfl⟩ <;>
+  · simp only [Gen.ElboScaling.logLikelihood, Gen.ElboScaling.klTerm, Gen.ElboScaling.logPriorItem]
+    field_simp
+
 /-- **elbo_assembly**: `VariationalELBO` with Gaussian likelihood — per-point terms are the closed-form
 `E_q log p(yᵢ|fᵢ)`. -/
 theorem elbo_assembly (pts : List (α × α × α)) (s logs log2pi B kl N β : α) (lps losses : List α)
